@@ -583,7 +583,7 @@ impl DbPool {
         db_type: DbKind,
     ) -> Result<(), ServerError> {
         if db_type != DbKind::Memory {
-            let backup_temp = db_backup_dir(owner, &self.config).join(db);
+            let backup_temp = db_backup_dir(owner, &self.config).join(format!(".{db}.tmp"));
             std::fs::rename(current_path, &backup_temp)?;
             std::fs::rename(&backup_path, current_path)?;
             std::fs::rename(backup_temp, backup_path)?;
@@ -609,7 +609,8 @@ impl DbPool {
     fn swap_audit_with_backup(&self, owner: &str, db: &str) -> ServerResult {
         let audit_path = db_audit_file(owner, db, &self.config);
         let backup_audit_path = db_backup_audit_file(owner, db, &self.config);
-        let backup_audit_temp = db_backup_dir(owner, &self.config).join(format!("{db}.audit"));
+        let backup_audit_temp =
+            db_backup_dir(owner, &self.config).join(format!(".{db}.audit"));
 
         if !audit_path.exists() && !backup_audit_path.exists() {
             return Ok(());
